@@ -56,7 +56,7 @@ LEVELS = {
             "components": {"real": ["pkg/fuse read-only file system + bundle_read", "pkg/core publish", "pkg/cafs reader"], "stub": STUB},
             "assumptions": ["hash verification enabled on the mount"]},
     "C05": {"level": "exploration", "rule": RULE,
-            "text": "pairs of trees with controlled overlap (identical, disjoint, kept / changed / removed / renamed / added paths, empty trees) are uploaded as two bundles; the first is downloaded, Diff(local copy, second bundle) is compared with the model's symmetric difference (each path once, A/D/U decided by content key), then Update runs with every local-disk call (mkdir, open, write, close, remove) and every store call a scheduling point - and, in a second configuration, a fault point (EIO, short write + ENOSPC, failing blob reads); a successful Update must leave the directory byte-identical, .datamon metadata included, to a fresh download of the second bundle",
+            "text": "pairs of trees with controlled overlap (identical, disjoint, kept / changed / removed / renamed / added paths, empty trees) are uploaded as two bundles; the first is downloaded, Diff(local copy, second bundle) is compared with the model's symmetric difference (each path once, A/D/U decided by content key), then Update runs with every local-disk call (mkdir, open, write, close, remove) and every store call a scheduling point - and, in a second configuration, a fault point (EIO, short write + ENOSPC, failing blob reads); a successful Update must leave the directory byte-identical, .datamon metadata included, to a fresh download of the second bundle; when an Update failed under a fault it is run again without faults, and if that run reports success the same holds",
             "note": "weak-replay: the order in which Update schedules its file operations follows Go map iteration inside diffBundles; violations must reproduce on replay",
             "components": {"real": ["pkg/core diff/update/download/upload", "pkg/storage/localfs", "pkg/cafs"], "stub": STUB + ["simfs over MemMapFs"]},
             "assumptions": []},
@@ -116,7 +116,7 @@ LEVELS = {
             "components": {"real": ["pkg/core upload/list/latest/labels/download/diamond commit", "pkg/cafs", "pkg/storage/localfs"], "stub": STUB},
             "assumptions": ["histories of at most 3 prior bundles", "one crash per run"]},
     "C04": {"level": "exploration", "rule": RULE,
-            "text": "seeded exploration of trees (0..2500 files, hostile names, nested dirs, sizes 0..3 leaves, duplicated contents, generated-path decoys and look-alikes) x upload modes (whole tree / explicit key lists with missing keys and skip-missing) x leaf sizes x upload/download/file-list concurrency, with the interleaving of the <=20 parallel file uploads, their leaf flushes and a concurrent unrelated uploader chosen by the tape; oracle: entries one-to-one with the files (size, BLAKE2b tree key), full / filtered / single-file download byte-identical, only .datamon metadata besides",
+            "text": "seeded exploration of trees (0..2500 files, hostile names, nested dirs, sizes 0..3 leaves, duplicated contents, generated-path decoys and look-alikes) x upload modes (whole tree / explicit key lists with missing keys and skip-missing) x leaf sizes x upload/download/file-list concurrency, with the interleaving of the <=20 parallel file uploads, their leaf flushes and a concurrent unrelated uploader chosen by the tape; oracle: entries one-to-one with the files (size, BLAKE2b tree key), full / filtered / single-file download byte-identical, only .datamon metadata besides; one more configuration injects a single transient store error early in the upload of a 1001..2100-file tree: the upload either fails and shows no bundle, or reports success and the bundle is the whole tree",
             "note": "local disks are afero MemMapFs behind localfs (pass-through, not scheduled) in this scenario; trusts simstore",
             "components": {"real": ["pkg/core upload/download/list", "pkg/cafs", "pkg/model", "pkg/storage/localfs"], "stub": STUB},
             "assumptions": ["trees > 12 files use tiny files", "2000+ file trees only in the thorough tier"]},
